@@ -7,7 +7,7 @@
    Environment: merge3 + patiencediff.  They are NOT modelled; the texts the two merges are expected
    to return are given here as [render] of a segment decomposition ([shelf_text], [unshelved_text])
    and compared with the real merges by the correspondence run.  No proofs here. *)
-From Coq Require Import NArith ZArith List Bool String.
+From Coq Require Import NArith ZArith List Bool.
 From BV Require Import Lib.Bytes Lib.Obs Model.Patch.
 Import ListNotations.
 
@@ -100,5 +100,6 @@ Definition run_hunks (invert : bool) (a b : list line) (ops : list opcode) (n : 
        ares_obs (select_hunks invert start hs answers);
        onat (change_count invert hs answers);
        olist (fun p => OZ (snd p)) (select_loop invert hs answers 0%Z);
-       (if invert then ON else lines_obs (shelf_text a hs answers));
-       (if invert then ON else lines_obs (unshelved_text a hs)) ].
+       (* nothing is shelved when change_count is 0 (handle_modify_text) *)
+       (if invert || Nat.eqb (change_count invert hs answers) 0 then ON else lines_obs (shelf_text a hs answers));
+       (if invert || Nat.eqb (change_count invert hs answers) 0 then ON else lines_obs (unshelved_text a hs)) ].
